@@ -104,16 +104,22 @@ Section Views.
   Qed.
 
   Lemma it_HS : forall x h, it_P x -> it_ht x = S h ->
-    fst (iter_step x) = [] /\ Forall (fun k => it_P k /\ it_ht k = h) (snd (iter_step x)).
+    Forall (fun k => it_P k /\ it_ht k = h) (snd (iter_step x)).
   Proof.
     intros [t pre] h HP H. unfold it_P in HP. rewrite H in HP. cbn [fst] in HP.
     destruct t as [o ls|o ls ks]; [apply uniform_leaf in HP as [? _]; discriminate|].
     apply uniform_node in HP as (h' & E & Hlen & Hne & Hk). injection E as <-.
-    split; [reflexivity|]. unfold iter_step. cbn [fst snd].
+    unfold iter_step. cbn [fst snd].
     apply Forall_forall. intros [k pre'] Hin. apply in_map_iff in Hin as ([l k'] & E & Hin).
     injection E as -> <-. apply in_combine_r in Hin.
     rewrite Forall_forall in Hk. specialize (Hk _ Hin).
     unfold it_P, it_ht. cbn [fst]. rewrite (uniform_depth _ _ Hk). cbn [pred]. auto.
+  Qed.
+
+  Lemma it_silent : forall x h, it_P x -> it_ht x = S h -> fst (iter_step x) = [].
+  Proof.
+    intros [t pre] h HP H. unfold it_P in HP. rewrite H in HP. cbn [fst] in HP.
+    destruct t as [o ls|o ls ks]; [apply uniform_leaf in HP as [? _]; discriminate|reflexivity].
   Qed.
 
   Lemma it_dfs : forall (t : level) h pre, uniform h t = true ->
@@ -122,7 +128,7 @@ Section Views.
     induction t as [o ls|o ls ks IH] using level_ind'; intros h pre H.
     - apply uniform_leaf in H as [-> _]. cbn. rewrite map_map. reflexivity.
     - apply uniform_node in H as (h' & -> & Hlen & _ & Hk). rewrite flatten_node.
-      cbn [dfs iter_step fst snd]. clear Hlen.
+      cbn [dfs iter_step fst snd app]. clear Hlen.
       revert ls. induction ks as [|k ks IHks]; intros ls.
       + destruct ls; reflexivity.
       + destruct ls as [|l ls]; [reflexivity|]. cbn [combine map flat_map fz fst snd].
@@ -132,29 +138,15 @@ Section Views.
         * apply IHks; auto.
   Qed.
 
-  Lemma it_cost : forall (t : level) h pre, uniform h t = true ->
-    cost _ _ iter_step h (t, pre) = node_count t.
-  Proof.
-    induction t as [o ls|o ls ks IH] using level_ind'; intros h pre H.
-    - apply uniform_leaf in H as [-> _]. reflexivity.
-    - apply uniform_node in H as (h' & -> & Hlen & _ & Hk). rewrite node_count_node.
-      cbn [cost iter_step fst snd]. f_equal.
-      revert ls Hlen. induction ks as [|k ks IHks]; intros ls Hlen.
-      + destruct ls; reflexivity.
-      + destruct ls as [|l ls]; [discriminate|]. cbn [combine map fst snd].
-        inversion IH; subst. inversion Hk; subst.
-        change (list_sum (?a :: ?b)) with (a + list_sum b)%nat.
-        rewrite (H1 h' _ H3). f_equal. apply IHks; auto.
-  Qed.
-
   Theorem iter_is_flatten : forall (t : level) h, uniform h t = true -> M_iter t = Ok (flatten t).
   Proof.
-    intros t h H. unfold M_iter.
+    intros t h H. unfold M_iter. rewrite (uniform_depth _ _ H). cbn [pred].
     rewrite (bfs_dfs _ _ iter_step it_ht it_P it_H0 it_HS h).
     - cbn [flat_map]. rewrite app_nil_r, (it_dfs t h [] H). f_equal.
       rewrite <- (map_id (flatten t)) at 2. apply map_ext. reflexivity.
+    - exact it_silent.
     - constructor; [|constructor]. unfold it_P, it_ht. cbn [fst].
       rewrite (uniform_depth _ _ H). cbn [pred]. auto.
-    - cbn [map]. change (list_sum [?a]) with (a + 0)%nat. rewrite (it_cost t h [] H). lia.
+    - cbn [map]. rewrite list_sum_cons. cbn. lia.
   Qed.
 End Views.
